@@ -36,12 +36,13 @@ import (
 )
 
 type caseT struct {
-	Workload string           `json:"workload"` // resp | http | ws
+	Workload string           `json:"workload"` // resp | http | ws | sendq
 	Index    int              `json:"index"`
 	Readable string           `json:"readable,omitempty"`
 	Program  *respgen.Program `json:"program,omitempty"`
 	HTTP     *httpCase        `json:"http,omitempty"`
 	WS       *wsCase          `json:"ws,omitempty"`
+	SendQ    *sendqCase       `json:"sendq,omitempty"`
 }
 
 type worker struct {
@@ -203,6 +204,8 @@ func main() {
 			w.runHTTP(c)
 		case "ws":
 			w.runWS(c)
+		case "sendq":
+			w.runSendQ(c)
 		}
 		w.cur = nil
 	}
@@ -271,6 +274,14 @@ func main() {
 	for i := 0; i < nWS; i++ {
 		i := i
 		step("ws", i, func() *caseT { return genWS(r, i) })
+	}
+	nSendQ := r.N(1500, 60000)
+	if *fault {
+		nSendQ /= 8
+	}
+	for i := 0; i < nSendQ; i++ {
+		i := i
+		step("sendq", i, func() *caseT { return genSendQ(r, i) })
 	}
 	w.ga.Sweep()
 	for _, rep := range env.TakeGuard() {
